@@ -1,9 +1,11 @@
 #!/bin/bash
 # usage: tools/seedall.sh  -- runs tools/seedcheck.sh for every seed under seeded/ against the check(s) named in its meta.json
 # ("caught_by") and writes seeded/results.tsv (seed, check, exit code of the check on the patched tree; 1 = caught)
+# optional argument: a glob under seeded/ (default *), e.g. tools/seedall.sh '*-[f-j]' ; results are appended for a glob run
 cd /verif || exit 2
-: > seeded/results.tsv
-for d in seeded/*/; do
+PAT="${1:-*}"
+[ "$PAT" = "*" ] && : > seeded/results.tsv
+for d in seeded/$PAT/; do
   s=$(basename $d)
   checks=$(/venv/bin/python -c "import json;print(' '.join(json.load(open('$d/meta.json')).get('caught_by',['${s%%-*}'])))")
   out=$(tools/seedcheck.sh seeded/$s $checks 2>&1)
